@@ -496,6 +496,38 @@ EMUL_EFFECT = {
 }
 
 
+def _effects_of(prog, f, depth, seen):
+    """Effect classes of a function body, following private amc helpers it delegates to (a helper extracted from the body keeps
+    the effect)."""
+    have = set()
+    if f.get('body') is None or f['id'] in seen or depth > 3:
+        return have
+    seen.add(f['id'])
+    for n in walk(f['body']):
+        if n.get('k') == 'call':
+            kd, det = R.role(n)
+            if kd:
+                have.add(kd)
+            if A.cshort(n) in ('memcpy', 'memmove', 'memset'):
+                have.add('bytecopy')
+                have.add('assign') if A.cshort(n) == 'memset' else None
+            if n.get('amc') and short(n.get('name', '')) in EMUL_EFFECT:
+                have.update(EMUL_EFFECT[short(n['name'])])       # delegates to a sibling that is checked itself
+            elif n.get('amc') and not kd and n.get('fn') in prog.fns:
+                have |= _effects_of(prog, prog.fns[n['fn']], depth + 1, seen)
+            if n.get('op') == '=' and n.get('method'):
+                have.add('assign')
+        if n.get('k') == 'new' and n.get('reserved_placement'):
+            have.add('construct')
+        if n.get('k') == 'pseudodtor' or (n.get('k') == 'call' and n.get('name', '').endswith('(dtor)')):
+            have.add('destroy')
+    for st, lhs in A.stores(f['body']):
+        l = A.strip(lhs)
+        if isinstance(l, dict) and (l.get('k') == 'un' and l.get('op') == '*'):
+            have.add('assign')
+    return have
+
+
 def emul_effect(progs):
     rr = RuleResult('EMUL-EFFECT', 'every overload of an emulated memory algorithm has the effect class of its standard counterpart: value-construct '
                                    'writes every element (constructs or fills), copy/move/relocate construct or byte-copy, destroy destroys')
@@ -506,27 +538,7 @@ def emul_effect(progs):
                                                                      f['name'].startswith('amc::destroy')):
                 continue
             want = EMUL_EFFECT[sn]
-            have = set()
-            for n in walk(f['body']):
-                if n.get('k') == 'call':
-                    kd, det = R.role(n)
-                    if kd:
-                        have.add(kd)
-                    if A.cshort(n) in ('memcpy', 'memmove', 'memset'):
-                        have.add('bytecopy')
-                        have.add('assign') if A.cshort(n) == 'memset' else None
-                    if n.get('amc') and short(n.get('name', '')) in EMUL_EFFECT:
-                        have.update(EMUL_EFFECT[short(n['name'])])       # delegates to a sibling that is checked itself
-                    if n.get('op') == '=' and n.get('method'):
-                        have.add('assign')
-                if n.get('k') == 'new' and n.get('reserved_placement'):
-                    have.add('construct')
-                if n.get('k') == 'pseudodtor' or (n.get('k') == 'call' and n.get('name', '').endswith('(dtor)')):
-                    have.add('destroy')
-            for st, lhs in A.stores(f['body']):
-                l = A.strip(lhs)
-                if isinstance(l, dict) and (l.get('k') == 'un' and l.get('op') == '*'):
-                    have.add('assign')
+            have = _effects_of(prog, f, 0, set())
             # a destroy of a trivially destructible type legitimately does nothing
             trivial_ok = sn.startswith('destroy')
             ok = bool(have & set(want)) or trivial_ok
